@@ -95,6 +95,17 @@ def main():
 
 
 def finish(meta, dst):
+    old = os.path.join(dst, 'meta.json')
+    if os.path.exists(old):
+        try:
+            prev = json.load(open(old))
+            hist = prev.get('earlier_runs', [])
+            if prev.get('detected_by'):
+                hist.append({'verif_commit': prev.get('verif_commit'), 'detected_by': {c: ('DETECTED' if d['rc'] == 1 else 'missed') for c, d in prev['detected_by'].items()}})
+            meta['earlier_runs'] = hist
+        except Exception:
+            pass
+    meta['verif_commit'] = sh('git -C %s rev-parse --short HEAD' % ROOT)[1].strip()
     with open(os.path.join(dst, 'meta.json'), 'w') as f:
         json.dump(meta, f, indent=1)
     print(json.dumps({k: meta.get(k) for k in ('seed', 'property', 'valid_seed', 'tests_with_change', 'demo_on_clean_tree_rc', 'demo_with_change_rc')}, indent=None))
